@@ -39,7 +39,7 @@ ASSUMPTIONS = [
     "writes go to index 0 (plus the model's initialisation write to all indices of a fresh slot), as in the statement",
     "values are small integers stored as floats: additive results are exact, comparison is bitwise",
 ]
-PROBES = ["observation_sparse", "observation_end", "result_kept_by_caller", "zero_increment", "caller_edits_returned_variable_list", "interface_variable_same_name", "interface_variable", "depth_changed_during_run", "shift_none_grows", "shift_on_empty", "additive_after_shift", "alias_probe_get", "alias_probe_set",
+PROBES = ["observation_sparse", "observation_end", "slots_created_in_non_ascending_order", "result_kept_by_caller", "zero_increment", "caller_edits_returned_variable_list", "interface_variable_same_name", "interface_variable", "depth_changed_during_run", "shift_none_grows", "shift_on_empty", "additive_after_shift", "alias_probe_get", "alias_probe_set",
           "rejected_additive_empty", "rejected_negative_index", "rejected_no_index", "rejected_two_indices_get", "rejected_get_beyond_depth",
           "rejected_shift_negative", "rejected_shift_location", "set_both_locations", "integer_dtype_value", "depth_ge3_filled", "init_all_indices", "depth3_window_filled"]
 
@@ -216,7 +216,10 @@ def run_helpers(ch, tr: Trace) -> None:
             return
         d = ch.rng(1, 3)
         v = fresh_value(counter, size, ch.flag(1, 5))
-        for i in range(d):
+        order = ch.shuffle(list(range(d)))  # a history may be seeded oldest first, or index 1 before index 0
+        if order != sorted(order):
+            tr.probe("slots_created_in_non_ascending_order")
+        for i in order:
             pp.set_solution_values(nm, v, data, **kw(loc, i))
         w.init_all(v, d)
         tr.probe("init_all_indices")
@@ -512,7 +515,7 @@ def _driver_run(ch, tr):
 def _driver_mp_run(ch, tr):
     from engines import driver_sim
 
-    return driver_sim.make_run("C08", families=("energy", "mech", "poro", "damage"))(ch, tr)
+    return driver_sim.make_run("C08", families=("energy", "mech", "poro", "damage", "mech_lin"))(ch, tr)
 
 
 WORKLOADS = [
